@@ -3,10 +3,13 @@ package harness
 import (
 	"errors"
 	"fmt"
+	"io"
+	"io/fs"
 	"os"
 	"path/filepath"
 	"sort"
 	"strings"
+	"syscall"
 )
 
 // ---------------------------------------------------------------------------
@@ -22,12 +25,24 @@ type faultWriter struct {
 	FailCall int
 	Budget   int
 	Once     bool
+	Err      error // what a failing call returns (nil = errInjected)
 
 	Calls  int
 	Bytes  int
 	Failed int // number of failing calls
 	Data   []byte
 	Keep   bool
+}
+
+// faultErrors are the errors a failing destination returns, in rotation over the fault plans: an
+// anonymous error, what a closed *os.File and a closed pipe return, a short write, a full disk.
+var faultErrors = []error{errInjected, os.ErrClosed, &fs.PathError{Op: "write", Path: "snapshot.bin", Err: os.ErrClosed}, io.ErrClosedPipe, io.ErrShortWrite, syscall.ENOSPC}
+
+func (w *faultWriter) fault() error {
+	if w.Err != nil {
+		return w.Err
+	}
+	return errInjected
 }
 
 func (w *faultWriter) Write(p []byte) (int, error) {
@@ -42,7 +57,7 @@ func (w *faultWriter) Write(p []byte) (int, error) {
 	}
 	if failNow {
 		w.Failed++
-		return 0, errInjected
+		return 0, w.fault()
 	}
 	if w.Budget >= 0 && w.Bytes+len(p) > w.Budget && !(w.Once && w.Failed > 0) {
 		n := w.Budget - w.Bytes
@@ -54,7 +69,7 @@ func (w *faultWriter) Write(p []byte) (int, error) {
 		}
 		w.Bytes += n
 		w.Failed++
-		return n, errInjected
+		return n, w.fault()
 	}
 	if w.Keep {
 		w.Data = append(w.Data, p...)
@@ -64,6 +79,12 @@ func (w *faultWriter) Write(p []byte) (int, error) {
 }
 
 func (w *faultWriter) String() string {
+	if w.Err != nil && w.Err != errInjected {
+		e := w.Err
+		w.Err = nil
+		defer func() { w.Err = e }()
+		return w.String() + fmt.Sprintf(" with %q", e.Error())
+	}
 	switch {
 	case w.FailCall >= 0 && w.Once:
 		return fmt.Sprintf("fail write call %d once", w.FailCall)
